@@ -22,7 +22,9 @@ Cwds == {"setdir", "parent", "unrelated"}
 Spells == {"rel", "abs", "dotslash", "dblsep", "dotdot", "absdot", "absdblsep", "absdotdot", "mixed"}   \* mixed: every path of one command line spelled differently
 Vias == {"lib", "cli"}
 Kernels == {"ssse3", "scalar"}
-Priors == {"fresh", "stale"}    \* stale: the directory already holds longer files under the names Create will write
+Priors == {"fresh", "stale", "staleother"}
+\* stale: the directory already holds longer files under the names Create will write;
+\* staleother: it holds the complete output of an earlier Create over inputs that differed only beyond the first 16 KiB of a file
 
 VARIABLE cfg
 Init == cfg = [kind |-> "root"]
@@ -32,8 +34,8 @@ Next == /\ cfg.kind = "root"
               /\ ~(p \in {"shuffleA", "shuffleB"} /\ (sp # "rel" \/ w # "setdir"))   \* further orders: plain spelling only
               /\ ~(v = "cli" /\ k = "scalar")                  \* the binary uses the CPU's dispatch
               /\ ~(r > 1 /\ (p # "given" \/ sp # "rel"))        \* repetition: the plain configuration only
-              /\ ~(pr = "stale" /\ (p # "given" \/ sp # "rel" \/ w # "setdir" \/ r > 1 \/ k = "scalar"))   \* stale output: the plain configuration only
-              /\ ~(s = 4 /\ (sp # "rel" \/ w # "setdir" \/ pr = "stale" \/ r > 1))   \* set 4 (an input that is a symbolic link to another input): orders, goroutines, kernels
+              /\ ~(pr # "fresh" /\ (p # "given" \/ sp # "rel" \/ w # "setdir" \/ r > 1 \/ k = "scalar"))   \* stale output: the plain configuration only
+              /\ ~(s = 4 /\ (sp # "rel" \/ w # "setdir" \/ pr # "fresh" \/ r > 1))   \* set 4 (an input that is a symbolic link to another input): orders, goroutines, kernels
               /\ cfg' = [kind |-> "cfg", prior |-> pr, format |-> f, set |-> s, perm |-> p, g |-> g, cwd |-> w, spell |-> sp, via |-> v, kernel |-> k, rep |-> r]
 
 \* the relevant part of a configuration
